@@ -762,9 +762,13 @@ class HTTPConnectionPool(ConnectionPool, RequestMethods):
         # for future rewinds in the event of a redirect/retry.
         body_pos = set_file_position(body, body_pos)
 
+        # Validate the timeout before a connection slot is taken: an invalid
+        # value must not reach the cleanup below, which would put back a
+        # placeholder for a slot that was never taken.
+        timeout_obj = self._get_timeout(timeout)
+
         try:
             # Request a connection from the queue.
-            timeout_obj = self._get_timeout(timeout)
             conn = self._get_conn(timeout=pool_timeout)
 
             conn.timeout = timeout_obj.connect_timeout  # type: ignore[assignment]
